@@ -65,6 +65,8 @@ def run(ck, rng):
         first_root = merged_items(items)[0]
         variants.append(("root", ";".join(canonical_build(first_root) + ["M,0,0,%s,%s,-,-,-,-" % (exts_plus(exts), hx(target))])))
         name, op = [v for v in variants if v[0] == vname][0]
+        if rng.random() < 0.12:
+            op += "," + rng.choice("jyt")
         its = first_root if name == "root" else flat
         cases.append(("mhist " if massive else "hist ") + "F,%s;%s" % (snap_arg(pre), op))
         meta.append((name + ("_massive" if massive else ""), its, exts, target, scen, pre))
